@@ -218,9 +218,9 @@ class Gen:
         return bytes(out), list(self.faults)
 
     # ---- messages
-    def session(self, out, response, attrs):
+    def session(self, out, response, attrs, handle=None):
         if not response:
-            self.leaf(out, "TPMI_SH_AUTH_SESSION", self.pick_valid("TPMI_SH_AUTH_SESSION"))
+            self.leaf(out, "TPMI_SH_AUTH_SESSION", handle if handle is not None else self.pick_valid("TPMI_SH_AUTH_SESSION"))
         n = self.rng.choice([0, 0, 16, 20, 32])
         self.leaf(out, "UINT16", n, "size")
         out += bytes(self.rng.randrange(256) for _ in range(n))
@@ -229,7 +229,7 @@ class Gen:
         self.leaf(out, "UINT16", n, "size")
         out += bytes(self.rng.randrange(256) for _ in range(n))
 
-    def command(self, cc=None, nsessions=None, decrypt=None, encrypt=None, empty_area=None):
+    def command(self, cc=None, nsessions=None, decrypt=None, encrypt=None, empty_area=None, sess=None):
         """returns (bytes, info) ; info: cc, rsp_enc (a session asks for response encryption);
         empty_area: tag TPM_ST_SESSIONS with an authorization area of size 0 (present but empty)"""
         rng = self.rng
@@ -244,19 +244,27 @@ class Gen:
         base = 10
         self.gen_type(self.cmd_h[cc], body)
         attrs = []
-        for i in range(nsessions):
-            a = rng.choice([0, 1, 0x01, 0x81])
-            if (decrypt if decrypt is not None else rng.random() < 0.25):
-                a |= 0x20
-            if (encrypt if encrypt is not None else rng.random() < 0.25):
-                a |= 0x40
-            attrs.append(a)
+        handles = []
+        if sess is not None:
+            # explicit sessions: [(handle or None, attributes)]
+            nsessions = len(sess)
+            handles = [h_ for h_, _ in sess]
+            attrs = [a_ for _, a_ in sess]
+        else:
+            for i in range(nsessions):
+                a = rng.choice([0, 1, 0x01, 0x81])
+                if (decrypt if decrypt is not None else rng.random() < 0.25):
+                    a |= 0x20
+                if (encrypt if encrypt is not None else rng.random() < 0.25):
+                    a |= 0x40
+                attrs.append(a)
+            handles = [None] * nsessions
         if nsessions or empty_area:
             area = bytearray()
             saved = self.faults
             self.faults = []
-            for a in attrs:
-                self.session(area, False, a)
+            for h_, a in zip(handles, attrs):
+                self.session(area, False, a, handle=h_)
             af = self.faults
             self.faults = saved
             self.faults.append(("size", len(body), 4, "UINT32", len(area)))
@@ -281,10 +289,12 @@ class Gen:
         faults += [(k, 10 + o, w, p, z) for (k, o, w, p, z) in self.faults]
         return msg, {"cc": cc, "rsp_enc": any(a & 0x40 for a in attrs), "nsessions": nsessions, "empty_area": empty_area, "faults": faults}
 
-    def response(self, cc, enc=False, nsessions=None, rc=None, empty_area=None):
+    def response(self, cc, enc=False, nsessions=None, rc=None, empty_area=None, tag=None, sess_attrs=None):
         rng = self.rng
         if rc is None:
             rc = 0 if rng.random() < 0.85 else rng.choice([0x101, 0x1C4, 0x9A2, 0x922, 0x084, 0x902])
+        if sess_attrs is not None:
+            nsessions = len(sess_attrs)
         if nsessions is None:
             nsessions = rng.choice([0, 0, 1, 2]) if not enc else rng.choice([1, 2])
         if empty_area is None:
@@ -292,8 +302,11 @@ class Gen:
         empty_area = bool(empty_area) and nsessions == 0 and not enc and rc == 0
         self.faults = []
         body = bytearray()
+        tag_arg = tag
         tag = 0x8002 if ((nsessions or empty_area) and rc == 0) else 0x8001
-        if rc != 0 and rng.random() < 0.35:
+        if tag_arg is not None and rc != 0:
+            tag = tag_arg
+        elif rc != 0 and rng.random() < 0.35:
             # a failed response is header-only whatever its tag says: TPM_ST_SESSIONS, the TPM 1.2 style tag 0x00C4 of
             # the TPM_RC_BAD_TAG reply (first byte 0x00), any other structure tag
             tag = rng.choice([0x8002] * 12 + [0x00C4] * 12 + [v for v in self.valid_values("TPM_ST") if 0 <= v < 65536])
@@ -318,6 +331,8 @@ class Gen:
                     a = rng.choice([0, 1])
                     if enc and (i == 0 or rng.random() < 0.3):
                         a |= 0x40
+                    if sess_attrs is not None:
+                        a = sess_attrs[i]
                     area = bytearray()
                     saved = self.faults
                     self.faults = []
